@@ -12,7 +12,6 @@ import traceback
 import unicodedata
 from collections import deque
 from datetime import datetime
-from functools import partial
 from importlib.resources import files
 from typing import (
     TYPE_CHECKING,
@@ -40,6 +39,17 @@ if TYPE_CHECKING:
     from lupa.lua51 import _LuaTable
 
     from .core import ParentData, Wtp
+
+def _bind(fn: Callable, *bound: Any) -> Callable:
+    """Like functools.partial, but the returned callable has no public
+    attributes: a partial object handed to Lua exposes .func, .args and
+    .keywords, i.e. the processing context itself."""
+
+    def bound_fn(*args: Any, **kwargs: Any) -> Any:
+        return fn(*bound, *args, **kwargs)
+
+    return bound_fn
+
 
 # List of search paths for Lua libraries
 BUILTIN_LUA_SEARCH_PATHS: list[tuple[str, list[str]]] = [
@@ -265,35 +275,35 @@ def call_set_functions(
                 "mw_decode_python": mw_text_decode,
                 "mw_encode_python": mw_text_encode,
                 "mw_jsonencode_python": mw_text_jsonencode,
-                "mw_jsondecode_python": partial(mw_text_jsondecode, ctx),
-                "mw_python_get_page_info": partial(get_page_info, ctx),
-                "mw_python_get_page_content": partial(get_page_content, ctx),
+                "mw_jsondecode_python": _bind(mw_text_jsondecode, ctx),
+                "mw_python_get_page_info": _bind(get_page_info, ctx),
+                "mw_python_get_page_content": _bind(get_page_content, ctx),
                 "mw_python_fetch_language_name": fetch_language_name,
-                "mw_python_fetch_language_names": partial(
+                "mw_python_fetch_language_names": _bind(
                     fetch_language_names, ctx
                 ),
-                "mw_wikibase_getlabel_python": partial(
+                "mw_wikibase_getlabel_python": _bind(
                     mw_wikibase_getlabel, ctx
                 ),
-                "mw_wikibase_getdesc_python": partial(
+                "mw_wikibase_getdesc_python": _bind(
                     mw_wikibase_getdescription, ctx
                 ),
-                "mw_wikibase_getEntityIdForCurrentPage_py": partial(
+                "mw_wikibase_getEntityIdForCurrentPage_py": _bind(
                     mw_wikibase_getEntityIdForCurrentPage, ctx
                 ),
-                "mw_wikibase_getEntityIdForTitle_py": partial(
+                "mw_wikibase_getEntityIdForTitle_py": _bind(
                     mw_wikibase_getEntityIdForTitle, ctx
                 ),
-                "mw_current_title_python": partial(get_current_title, ctx),
-                "current_frame_python": partial(
+                "mw_current_title_python": _bind(get_current_title, ctx),
+                "current_frame_python": _bind(
                     top_lua_stack, ctx.lua_frame_stack
                 ),
-                "mw_site_interwikiMap_py": partial(mw_site_interwikiMap, ctx),
-                "mw_language_format_date_python": partial(
+                "mw_site_interwikiMap_py": _bind(mw_site_interwikiMap, ctx),
+                "mw_language_format_date_python": _bind(
                     mw_language_format_date_python, ctx
                 ),
-                "mw_wikibase_getEntity_py": partial(mw_wikibase_getEntity, ctx),
-                "mw_wikibase_getSitelink_py": partial(
+                "mw_wikibase_getEntity_py": _bind(mw_wikibase_getEntity, ctx),
+                "mw_wikibase_getSitelink_py": _bind(
                     mw_wikibase_getSitelink, ctx
                 ),
             }
@@ -308,13 +318,13 @@ def set_global_lua_variable(lua, var_name, var_value):
 
 def set_lua_env_funcs(lua, wtp):
     set_global_lua_variable(
-        lua, "_python_append_env", partial(append_lua_stack, wtp.lua_env_stack)
+        lua, "_python_append_env", _bind(append_lua_stack, wtp.lua_env_stack)
     )
     set_global_lua_variable(
-        lua, "_python_top_env", partial(top_lua_stack, wtp.lua_env_stack)
+        lua, "_python_top_env", _bind(top_lua_stack, wtp.lua_env_stack)
     )
     set_global_lua_variable(
-        lua, "mw_jsondecode_python", partial(mw_text_jsondecode, wtp)
+        lua, "mw_jsondecode_python", _bind(mw_text_jsondecode, wtp)
     )
 
 
@@ -348,7 +358,7 @@ def initialize_lua(ctx: "Wtp") -> None:
         set_loader = phase1_result[1]
         clear_loaddata_cache = phase1_result[2]
         # Call the function that sets the Lua loader
-        set_loader(partial(lua_loader, ctx))
+        set_loader(_bind(lua_loader, ctx))
 
     # Then load the second phase of the sandbox.  This now goes through the
     # new loader and is evaluated in the sandbox.  This mostly implements
